@@ -234,7 +234,7 @@ pub fn worker(ctx: &WorkerCtx, arch: Arch, mode: Mode) -> Report {
     // multi-statement interaction: sharing, lifted definitions, closures, jump tables)
     {
         use crate::generate::funfam::{all_fun_families, FunCase, FunCfg, FunSink};
-        let fcfg = FunCfg { thorough: ctx.tier.thorough(), with_unsequenced: true };
+        let fcfg = FunCfg { thorough: ctx.tier.thorough(), small_max: 0, with_unsequenced: true };
         let mut fh = |fc: FunCase| {
             // a slice of the (large) FUN-S family, everything else in full
             if fc.name.starts_with("small/") && hash64(&fc.name) % (if ctx.tier.thorough() { 2 } else { 8 }) != 0 {
@@ -249,7 +249,77 @@ pub fn worker(ctx: &WorkerCtx, arch: Arch, mode: Mode) -> Report {
         let mut fsink = FunSink { idx: 0, shard: ctx.shard, n: ctx.nshards, f: &mut fh };
         all_fun_families(&fcfg, &mut fsink);
     }
+    // the complete space of small non-linear statements, linearized by the real linearizer
+    {
+        let n_max = if ctx.tier.thorough() { 4 } else { 3 };
+        let mut idx = 0u64;
+        let mut nh = |nc: crate::generate::axnl::NlCase| {
+            idx += 1;
+            if !ctx.mine(idx) {
+                return;
+            }
+            if let Some(case) = nl_to_case(&nc) {
+                handle(case);
+            }
+        };
+        crate::generate::axnl::enumerate(n_max, &mut nh);
+        crate::generate::axnl::enumerate_invoke(n_max + 1, &mut nh);
+    }
+    // hand-built Core programs (G-CORE) taken through focusing, shrinking and linearization
+    {
+        let mut idx = 0u64;
+        let core_print = arch != Arch::Rv64;
+        for (aname, alpha, max) in core_sizes(ctx.tier.thorough(), core_print) {
+            let mut e = crate::generate::corefam::Enum::new(alpha);
+            for size in 3..=max {
+                let all = e.stmts(crate::generate::corefam::initial_scope(), size);
+                for (i, s) in all.iter().enumerate() {
+                    idx += 1;
+                    if !ctx.mine(idx) {
+                        continue;
+                    }
+                    if let Some(prog) = core_to_linear(s, core_print) {
+                        for input in [0i64, 3] {
+                            handle(AxCase { name: format!("core/{aname}/n{size}/{i}"), prog: prog.clone(), args: vec![input], uses_print: core_print });
+                        }
+                    }
+                }
+            }
+        }
+    }
     rep
+}
+
+fn nl_to_case(nc: &crate::generate::axnl::NlCase) -> Option<AxCase> {
+    use printer::Print;
+    let lin = crate::pipeline::linearize(nc.prog.clone()).ok()?;
+    let uses_print = lin.print_to_string(None).contains("print");
+    Some(AxCase { name: format!("nl/{}", nc.name), prog: lin, args: nc.args.clone(), uses_print })
+}
+
+fn core_sizes(thorough: bool, with_print: bool) -> Vec<(&'static str, crate::generate::corefam::Alphabet, usize)> {
+    use crate::generate::corefam::{Alphabet, T};
+    let (a, b) = if thorough { (10, 12) } else { (9, 11) };
+    if !with_print {
+        // print-free alphabets (one size larger: the space is smaller)
+        return vec![
+            ("all-np", Alphabet { types: vec![T::Int, T::Pair, T::Fun], with_print: false, with_if: true, with_call: true, with_exit: true }, a + 1),
+            ("int-pair-np", Alphabet { types: vec![T::Int, T::Pair], with_print: false, with_if: false, with_call: false, with_exit: false }, b + 1),
+            ("int-opt-np", Alphabet { types: vec![T::Int, T::Opt], with_print: false, with_if: false, with_call: false, with_exit: false }, b + 2),
+        ];
+    }
+    vec![
+        ("all", Alphabet { types: vec![T::Int, T::Pair, T::Fun], with_print: true, with_if: true, with_call: true, with_exit: true }, a),
+        ("int-pair", Alphabet { types: vec![T::Int, T::Pair], with_print: true, with_if: false, with_call: false, with_exit: false }, b),
+        ("int-opt", Alphabet { types: vec![T::Int, T::Opt], with_print: true, with_if: false, with_call: false, with_exit: false }, b + 1),
+    ]
+}
+
+fn core_to_linear(s: &crate::generate::corefam::S, final_print: bool) -> Option<axcut::syntax::Prog> {
+    let prog = crate::generate::corefam::program_with(s, final_print);
+    let focused = crate::pipeline::focus(prog).ok()?;
+    let shrunk = crate::pipeline::shrink(focused).ok()?;
+    crate::pipeline::linearize(shrunk).ok()
 }
 
 /// Re-executes one recorded case by name (no explorer).
@@ -266,7 +336,7 @@ pub fn replay(case: &serde_json::Value) -> Option<(String, Verdict)> {
     if let Some(fname) = name.strip_prefix("fun/") {
         use crate::generate::funfam::{all_fun_families, FunCase, FunCfg, FunSink};
         let args: Vec<i64> = case["args"].as_array().map(|a| a.iter().filter_map(|x| x.as_i64()).collect()).unwrap_or_default();
-        let fcfg = FunCfg { thorough: true, with_unsequenced: true };
+        let fcfg = FunCfg { thorough: true, small_max: 0, with_unsequenced: true };
         let mut fh = |fc: FunCase| {
             if fc.name == fname && found.is_none() {
                 if let Ok(st) = crate::pipeline::all_stages(&fc.src) {
@@ -276,6 +346,33 @@ pub fn replay(case: &serde_json::Value) -> Option<(String, Verdict)> {
         };
         let mut fsink = FunSink { idx: 0, shard: 0, n: 1, f: &mut fh };
         all_fun_families(&fcfg, &mut fsink);
+    }
+    if let Some(nname) = name.strip_prefix("nl/") {
+        let mut nh = |nc: crate::generate::axnl::NlCase| {
+            if nc.name == nname && found.is_none() {
+                found = nl_to_case(&nc);
+            }
+        };
+        crate::generate::axnl::enumerate(4, &mut nh);
+        crate::generate::axnl::enumerate_invoke(5, &mut nh);
+    }
+    if name.starts_with("core/") {
+        let parts: Vec<&str> = name.split('/').collect();
+        let args: Vec<i64> = case["args"].as_array().map(|a| a.iter().filter_map(|x| x.as_i64()).collect()).unwrap_or_default();
+        if parts.len() == 4 {
+            if let (Ok(size), Ok(index)) = (parts[2].trim_start_matches('n').parse::<usize>(), parts[3].parse::<usize>()) {
+                let np = parts[1].ends_with("-np");
+                if let Some((_, alpha, _)) = core_sizes(true, !np).into_iter().find(|(n, _, _)| *n == parts[1]) {
+                    let mut e = crate::generate::corefam::Enum::new(alpha);
+                    let all = e.stmts(crate::generate::corefam::initial_scope(), size);
+                    if let Some(st) = all.get(index) {
+                        if let Some(prog) = core_to_linear(st, !np) {
+                            found = Some(AxCase { name: name.clone(), prog, args, uses_print: !np });
+                        }
+                    }
+                }
+            }
+        }
     }
     for tier in [Tier::Quick, Tier::Thorough] {
         if found.is_some() {
